@@ -277,6 +277,7 @@ class BlockTag(Tag):
     """The standard _extends_ tag."""
 
     name = "block"
+    end = "endblock"
     block = True
     node_class = BlockNode
     end_block = frozenset(["endblock"])
